@@ -151,7 +151,9 @@ func (c *faultConn) Close() error {
 		if c.closed != nil {
 			close(c.closed)
 		}
-		if c.f.linger > 0 {
+		if c.f.linger >= time.Hour {
+			// closed by the session's clean-up (c01Client)
+		} else if c.f.linger > 0 {
 			time.AfterFunc(c.f.linger, func() { c.inner.Close() })
 		} else {
 			c.inner.Close()
@@ -204,6 +206,9 @@ func c01GenFault(rng *rand.Rand, first bool) c01Fault {
 	}
 	if rng.Intn(4) == 0 {
 		f.linger = time.Duration(500+rng.Intn(2500)) * time.Millisecond
+		if rng.Intn(3) == 0 {
+			f.linger = time.Hour // a proxy frozen for good: its socket stays open at the server until the session is over
+		}
 	}
 	return f
 }
@@ -240,6 +245,7 @@ func (f c01Fault) String() string {
 func c01Client(serverAddr string, res *c01Result, seed int64, maxFaults int, deadline time.Time) {
 	rng := rand.New(rand.NewSource(seed))
 	var rngMu sync.Mutex
+	var allCarriers []*faultConn
 	clientID := turbotunnel.NewClientID()
 	if res.idGroup != nil {
 		// sessions of one group have ClientIDs that differ in a single byte (the last, or the first)
@@ -283,8 +289,19 @@ func c01Client(serverAddr string, res *c01Result, seed int64, maxFaults int, dea
 			return nil, err
 		}
 		atomic.AddInt32(&res.carriers, 1)
-		return &faultConn{inner: websocketconn.New(ws), f: f, closed: make(chan struct{})}, nil
+		fc := &faultConn{inner: websocketconn.New(ws), f: f, closed: make(chan struct{})}
+		rngMu.Lock()
+		allCarriers = append(allCarriers, fc)
+		rngMu.Unlock()
+		return fc, nil
 	}
+	defer func() { // carriers left lingering at the server are closed when the session is over
+		rngMu.Lock()
+		defer rngMu.Unlock()
+		for _, fc := range allCarriers {
+			fc.inner.Close()
+		}
+	}()
 	// statement by statement as newSession's dialContext (tie: Tie/ClientSession skel_newSession_tie)
 	dialContext := func(ctx context.Context) (net.PacketConn, error) {
 		for {
